@@ -94,6 +94,19 @@ def lean_sources_for(modules):
 
 
 def lean_check(pid, modules, tier, log):
+    """build + audit under an exclusive lock on the Lean project: checks may run in parallel, but two `lake build`s (and the
+    thorough tier's clean rebuild of a property's own modules) must not work on one build directory at the same time"""
+    import fcntl
+    os.makedirs(os.path.join(LEAN, ".lake"), exist_ok=True)
+    with open(os.path.join(LEAN, ".lake", "verif.lock"), "w") as lock:
+        fcntl.flock(lock, fcntl.LOCK_EX)
+        try:
+            return lean_check_locked(pid, modules, tier, log)
+        finally:
+            fcntl.flock(lock, fcntl.LOCK_UN)
+
+
+def lean_check_locked(pid, modules, tier, log):
     """build + audit; returns dict(obligations, discharged, failures[list of str], names)"""
     res = {"obligations": 0, "discharged": 0, "failures": [], "names": [], "axioms": {}}
     t0 = time.time()
